@@ -89,6 +89,19 @@ Theorem C13_others_teardown : forall sc m j, j <> m ->
 Proof. exact others_teardown. Qed.
 Print Assumptions C13_others_teardown.
 
+(* silent_ends_no_later: the run in which m falls silent does not end later than the one in which it panics: every
+   tear-down record of the former is stamped no later than every tear-down record of the latter (all tear-down records
+   of a run carry the instant its event loop ended at).  Proved with: nothing is scheduled into the past -- the event
+   set's clock is the time of the last dispatched event, every queued event lies at or after it, timer queues are
+   sorted (Life/Future.v) --, so the horizon of a run (the later of the clock and the latest queued event) never
+   decreases and the run ends exactly at its final horizon; in the phase in which m is dead the silent run's horizon
+   stays at or below the panicking run's: events of other modules add the same events to both, the dead m adds
+   wake-ups only to the panicking run (in the silent run it was reset and has no timer left). *)
+Theorem C13_silent_ends_no_later : forall sc m e e',
+  In e (trace sc) -> In e' (trace (quieten m sc)) -> is_end e = true -> is_end e' = true -> e_time e' <= e_time e.
+Proof. exact silent_ends_no_later. Qed.
+Print Assumptions C13_silent_ends_no_later.
+
 (* errors_exact_full: the complete error list run() returns, entry by entry.  Entries are (code, module): 0 PanicError,
    1 JoinError Paniced, 2 JoinError NotFinished, 3 JoinError Tokio(cancelled).  First the PanicErrors of the
    start-up phase and of the dispatched events, in the order of the panics ([body]: the trace without its tear-down
@@ -144,3 +157,24 @@ Example C13_nonvacuous :
     [ICall 0 (CbMsg 0) 2 true; ILog 0 0 1; IQuiet 0; ICancel 0 0; ICancel 0 1; ITaskEnd 0 0 0 2; ITaskEnd 0 1 0 2; IReset 0 2 1; ISample 2 2] /\
   r_err (run_script (quieten 0 px)) = [(3, 0); (3, 0); (1, 1)].
 Proof. vm_compute. repeat split; try reflexivity; discriminate. Qed.
+
+(* Non-vacuity of others_teardown / silent_ends_no_later: the two runs end at different instants.  Module 0 has two
+   sleeping tasks (deadlines 3 and 20) when it panics at t = 2.  Falling silent, it is reset and the run ends with
+   the stale wake-up at 3; panicking, it keeps its timer entries and the time driver schedules a further wake-up for the
+   second deadline: the run ends at 20.  Module 1's at_sim_end (a log and a send) is the same up to the time stamp. *)
+Definition pt_m0 : modcfg := {| c_catch := false; c_stages := 1; c_bud := 5; c_start := [[]];
+  c_msg := [[ALog 1; APanic]]; c_tasks := [[ASleep 3; ALog 7]; [ASleep 20; ALog 8]]; c_end := []; c_join := 0 |}.
+Definition pt_m1 : modcfg := {| c_catch := false; c_stages := 1; c_bud := 5; c_start := [[]];
+  c_msg := [[ALog 2]]; c_tasks := [[ASleep 1; ALog 4]]; c_end := [ALog 30; ASend false 0 1]; c_join := 1 |}.
+Definition pt : script := {| s_mods := [pt_m0; pt_m1]; s_inj := [(2, InjDeliver 0 0)] |}.
+
+Example C13_end_times_differ :
+  map (fun e => (e_kind e, e_time e)) (skipn 5 (trace pt)) =
+    [(KLoop (EvWake 0), 3); (KLoop (EvWake 0), 20); (KEnd 0, 20); (KEnd 1, 20)] /\
+  map (fun e => (e_kind e, e_time e)) (skipn 5 (trace (quieten 0 pt))) =
+    [(KLoop (EvWake 0), 3); (KEnd 0, 3); (KEnd 1, 3)] /\
+  items (ends_of 1 (trace pt)) = [ICall 1 CbEnd 20 true; ILog 1 0 30; ISend 1 0 false 0 1] /\
+  items (ends_of 1 (trace (quieten 0 pt))) = [ICall 1 CbEnd 3 true; ILog 1 0 30; ISend 1 0 false 0 1] /\
+  map rt (items (ends_of 1 (trace pt))) = map rt (items (ends_of 1 (trace (quieten 0 pt)))).
+Proof. vm_compute. repeat split; reflexivity. Qed.
+
